@@ -5,6 +5,7 @@ import (
 	"encoding/binary"
 	"encoding/json"
 	"fmt"
+	"math"
 	"math/big"
 	"math/bits"
 	"sort"
@@ -268,7 +269,11 @@ func (s State) PoWTarget() types.BlockID {
 // MaturityHeight is the height at which various outputs created in the child
 // block will "mature" (become spendable).
 func (s State) MaturityHeight() uint64 {
-	return s.childHeight() + s.Network.MaturityDelay
+	h := s.childHeight() + s.Network.MaturityDelay
+	if h < s.Network.MaturityDelay {
+		return math.MaxUint64 // overflow: never matures
+	}
+	return h
 }
 
 // SiafundCount is the number of siafunds in existence.
